@@ -71,7 +71,16 @@ func runSolverCtx(ctx context.Context, s solverSpec, file string, timeout time.D
 	_ = cmd.Run()
 	secs = time.Since(t0).Seconds()
 	out = buf.String()
-	first := strings.TrimSpace(strings.SplitN(strings.TrimSpace(out), "\n", 2)[0])
+	// the verdict is the first line that is not a solver warning (z3 prints "WARNING: ..." lines about patterns first)
+	first := ""
+	for _, l := range strings.Split(strings.TrimSpace(out), "\n") {
+		l = strings.TrimSpace(l)
+		if l == "" || strings.HasPrefix(l, "WARNING") {
+			continue
+		}
+		first = l
+		break
+	}
 	switch {
 	case first == "unsat":
 		return "unsat", out, secs
